@@ -492,7 +492,7 @@ func funcLookups(p *an.Prog, r *an.Report) []*sizeLookup {
 
 // C10 decides T1 (all size lookups agree with each other and the spec on all 65,536 codes).
 func C10(p *an.Prog, r *an.Report) {
-	r.Explanation = "Static extraction of every key/signature size lookup in the library (package-level map literals through go/types constants; functions through path-sensitive interval partitioning of their SSA control flow on the type-code input) as a total function on the 16-bit code space, compared exhaustively with the frozen I2P 0.9.67 table and with each other. Decides table agreement (T1), constructed-key length vs declared size (T3) and the key-block offset forms (T2); does not decide byte contents for arbitrary keys. T2 is evaluated by the key-block layout rule shared with C01.R5."
+	r.Explanation = "Static extraction of every key/signature size lookup in the library (package-level map literals through go/types constants; functions through path-sensitive interval partitioning of their SSA control flow on the type-code input) as a total function on the 16-bit code space, compared exhaustively with the frozen I2P 0.9.67 table and with each other. Decides table agreement (T1), constructed-key length vs declared size (T3) and the key-block offset forms (T2); does not decide byte contents for arbitrary keys. T2 is evaluated by the key-block layout rule shared with C01.R5. T4: private-key size columns are read only inside the table's package or by private-key code."
 	r.Rule = "one obligation per discovered lookup column (known-set equality and value equality over all 65,536 codes) plus pairwise agreement per class; non-trivial = the lookup resolved at least 3 codes to constants"
 	defer c01Block(p, r, "C10.T2") // key offsets inside the 384-byte block for every supported size pair
 	r.Trusted = []string{"go/types constant evaluation", "go/ssa construction", "frozen spec table in checker/internal/rules/spec.go"}
